@@ -238,12 +238,35 @@ def gen_c04(engine, mode):
     def g(seed):
         rng = _rng(seed, 40 + len(mode))
         asyncish = engine == "async"
-        mi = (3, 12) if mode == "burst" else (20, 60)
-        mg = MachineGen(rng, prof(root_final=False, p_final=0.05, p_raise=0.3, p_always=0.1, p_extra_entry=0.4,
-                                  p_async_act=(0.3 if asyncish else 0.0), p_slow_act=0.1, max_iterations=mi,
+        mi = (3, 12) if mode in ("burst", "inflight") else (20, 60)
+        inflight = mode == "inflight"
+        mg = MachineGen(rng, prof(root_final=False, p_final=0.05, p_raise=(0.1 if inflight else 0.3), p_always=0.1, p_extra_entry=0.4,
+                                  p_async_act=((0.6 if inflight else 0.3) if asyncish else 0.0),
+                                  p_async_sleep=(0.7 if inflight else 0.0), p_slow_act=0.1, max_iterations=mi,
                                   p_after=(0.25 if mode != "burst" else 0.0), n_states=(3, 8), p_history=0.1))
         out = mg.build()
         nclients = rng.choice((1, 2, 3, 4)) if mode != "burst" else rng.choice((1, 2))
+        if inflight:
+            # a sustained producer (and occasional bursts) whose sends land while an awaiting action keeps the
+            # previous macrostep in flight: more than maxIterations external events per in-flight window / in a row
+            ops = [{"op": "start", "t": 0, "client": 0, "wait": True, "obs": False}]
+            lim = out["machine"]["maxIterations"]
+            t, tag = 1000, 0
+            for _ in range(rng.randint(lim + 2, 3 * lim + 6)):
+                t += rng.choice((0, 500, 1000, 2000, 3000))
+                c = rng.randrange(nclients)
+                if rng.random() < 0.15:
+                    evs = []
+                    for _j in range(rng.choice((2, 3, lim + 1, lim + 3))):
+                        tag += 1
+                        evs.append({"type": rng.choice(mg.events), "tag": tag, "p": c})
+                    ops.append({"op": "send_events", "events": evs, "t": t, "client": c, "wait": False, "obs": False, "tie": "before"})
+                else:
+                    tag += 1
+                    ops.append({"op": "send", "event": rng.choice(mg.events), "tag": tag, "p": c, "t": t, "client": c,
+                                "wait": False, "obs": False, "tie": rng.choice(("before", "after"))})
+            # virtual time is free: leave room for every event to take a long, sleeping macrostep
+            return _base(seed, engine, out, ops, horizon=t + (tag + 5) * 1000 * MS)
         ops = [{"op": "start", "t": 0, "client": 0, "wait": not (asyncish and rng.random() < 0.5), "obs": False}]
         t = 0
         tag = 0
@@ -278,6 +301,7 @@ def gen_c04(engine, mode):
 register(
     "C04",
     families=[("async_multi", 4, gen_c04("async", "multi")), ("async_burst", 2, gen_c04("async", "burst")),
+              ("async_inflight", 3, gen_c04("async", "inflight")),
               ("sync_seq", 2, gen_c04("sync", "multi")), ("sync_threads", 3, gen_c04("sync", "threads")),
               ("sync_burst", 2, gen_c04("sync", "burst"))],
     oracle=O.oracle_c04,
@@ -479,6 +503,10 @@ register(
     runner=O.run_c05,
     level="exploration",
     chunk=30,
+    stats=lambda sc, r: {"leg_" + str(r.meta.get("engine")): 1,
+                         "uses_history": int(bool(sc.get("uses_history"))), "uses_raise": int(bool(sc.get("uses_raise"))),
+                         "uses_nested_expansion": int(bool(sc.get("uses_nested"))), "uses_invoke": int(bool(sc.get("uses_invoke"))),
+                         "transitions": sum(1 for x in r.trace if x[3] == "trans")},
     tiers={"quick": {"runs": 3000}, "thorough": {"runs": 200000}},
     rule=("the same scenario (machine, logic, event sequence) is executed on SyncInterpreter, on Interpreter (under two different client "
           "schedules) and through initial_transition/transition; after start and after every event the configuration, context, status and "
@@ -573,28 +601,61 @@ def gen_c07_contain(engine):
 
 def gen_c07_abort(engine):
     def g(seed):
+        import copy
+        from .execs import execute
         rng = _rng(seed, 701)
         mg = MachineGen(rng, prof(p_assign=0.1, p_raise=0.0, p_always=0.0, p_history=0.1, p_parallel=0.2, p_final=0.0, root_final=False,
                                   n_states=(3, 8), p_guard=0.2, p_after=0.35, p_trans=0.6))
         out = mg.build()
         kind = rng.choice(("missing_action", "missing_action", "bad_target", "missing_service") + (("coro_action",) if engine == "sync" else ()))
+        ops = [{"op": "start"}]
+        for _ in range(rng.randint(4, 10)):
+            if rng.random() < 0.2:
+                ops.append({"op": "advance", "dt": rng.choice((10, 30, 100)) * MS})
+            else:
+                ops.append({"op": "send", "event": rng.choice(mg.events), "tag": len(ops)})
+        # fault-free dry run: which entry / exit / transition lists does this scenario actually execute after start()?
+        # (a poisoned list that is never reached tests nothing; one on the initial path only makes start() refuse)
+        dry = _base(seed, engine, copy.deepcopy(out), copy.deepcopy(ops), horizon=None)
+        dry["ops"].append({"op": "advance", "dt": 400 * MS})
+        hit = set()
+        try:
+            r0 = execute(dry)
+            started = False
+            for x in r0.trace:
+                if x[3] == "op-ret" and x[5] == "start":
+                    started = True
+                elif started and x[3] == "act" and x[4] == "m":
+                    hit.add(x[5])
+        except Exception:
+            hit = set()
         # poison one transition / entry / exit list
-        spots = []
+        spots, live = [], []
 
         def walk(c, path):
+            sid = ".".join(("m",) + path)
             for f in ("entry", "exit"):
                 if isinstance(c.get(f), list) and path:
                     spots.append((c, f, None))
+                    if ("en." if f == "entry" else "ex.") + sid in hit:
+                        live.append((c, f, None))
             for ev, tc in (c.get("on") or {}).items():
                 for t in (tc if isinstance(tc, list) else [tc]):
                     if isinstance(t, dict) and t.get("target"):
                         spots.append((t, "actions", ev))
+                        if any(isinstance(a_, str) and a_ in hit for a_ in (t.get("actions") or [])):
+                            live.append((t, "actions", ev))
             for k, ch in (c.get("states") or {}).items():
                 walk(ch, path + (k,))
         walk(out["machine"], ())
         where = None
+        reached = False
         if spots:
-            holder, field, ev = rng.choice(spots)
+            if live and rng.random() < 0.85:
+                holder, field, ev = rng.choice(live)
+                reached = True
+            else:
+                holder, field, ev = rng.choice(spots)
             where = field if ev is None else "transition"
             if kind == "missing_action":
                 lst = holder.setdefault(field, [])
@@ -603,34 +664,34 @@ def gen_c07_abort(engine):
                 lst = holder.setdefault(field, [])
                 mg.actions["coro_act"] = {"eff": [], "force_async": True}
                 lst.insert(rng.randint(0, len(lst)), "coro_act")
-            elif kind == "bad_target" and field == "actions":
-                holder["target"] = "#m.no_such_state"
-            elif kind == "missing_service":
-                # the state entered by this transition invokes an unregistered service: poison a random state instead
-                pass
+            elif kind == "bad_target":
+                if field != "actions":
+                    tl = [x_ for x_ in live if x_[1] == "actions"] or [x_ for x_ in spots if x_[1] == "actions"]
+                    if tl:
+                        holder, field, ev = rng.choice(tl)
+                        where = "transition"
+                if field == "actions":
+                    holder["target"] = "#m.no_such_state"
         if kind == "missing_service":
-            states = []
+            states, entered = [], []
 
             def sw(c, path):
                 for k, ch in (c.get("states") or {}).items():
                     if ch.get("type") not in ("history", "final") and path + (k,) != (out["machine"].get("initial"),):
                         states.append(ch)
+                        if "en." + ".".join(("m",) + path + (k,)) in hit:
+                            entered.append(ch)
                     sw(ch, path + (k,))
             sw(out["machine"], ())
             if states:
-                st = rng.choice(states)
+                reached = bool(entered) and rng.random() < 0.85
+                st = rng.choice(entered if reached else states)
                 st["invoke"] = {"src": "unregistered_service", "id": "inv_missing"}
                 where = "invoke"
-        ops = [{"op": "start"}]
-        for _ in range(rng.randint(4, 10)):
-            if rng.random() < 0.2:
-                ops.append({"op": "advance", "dt": rng.choice((10, 30, 100)) * MS})
-            else:
-                ops.append({"op": "send", "event": rng.choice(mg.events), "tag": len(ops)})
         sc = _base(seed, engine, out, ops, horizon=None)
         sc["ops"].append({"op": "advance", "dt": 400 * MS})
         sc["c07_mode"] = "abort"
-        sc["poison"] = {"kind": kind, "where": where}
+        sc["poison"] = {"kind": kind, "where": where, "on_executed_path": reached}
         return sc
     return g
 
